@@ -112,6 +112,7 @@ struct Global {
     uint32_t tsc_last = 0;
     uint64_t spin_time = 0, stall_time = 0;
     uint64_t floor_last_now = 0, floor_idle_steps = 0;
+    bool pct_recheck = false;       // a task became runnable: under PCT the highest priority runnable task runs, so look again
     bool trace_time = false;
     const char* budget_status = "inconclusive"; const char* budget_class = "budget";
 };
@@ -318,7 +319,7 @@ static void fire_timers() {
             t->st = T_RUN; t->timed_out = true; t->deadline = 0; any = true;
         }
     }
-    (void)any;
+    if (any) G.pct_recheck = true;
     recompute_deadline();
 }
 void advance_ns(uint64_t ns) {
@@ -486,6 +487,7 @@ static void wake_obj(const void* obj, bool one) {
     } else {
         for (int i = 0; i < n; i++) { cand[i]->st = T_RUN; cand[i]->deadline = 0; cand[i]->timed_out = false; }
     }
+    G.pct_recheck = true;
     recompute_deadline();
 }
 
@@ -534,7 +536,10 @@ static inline void sched_point(Task* t, int kind) {
             t->prio = --G.prio_low; t->streak = 0;
         } else if (kind == K_YIELD) {
             t->prio = --G.prio_low;
+        } else if (G.pct_recheck) {
+            // (a woken task with a higher priority pre-empts the running one, as in the PCT scheduler proper)
         } else return;
+        G.pct_recheck = false;
         Task* n = pick_next(nullptr, false);
         if (n && n != t) switch_to(n);
         return;
@@ -585,7 +590,7 @@ static inline void modified(Task* t, const volatile void* a) {
     if (G.nspin) {
         for (int i = 0; i < G.ntasks; i++) {
             Task* s = G.tasks[i];
-            if (s->st == T_SPIN && s->spin_addr == a) { s->st = T_RUN; G.nspin--; }
+            if (s->st == T_SPIN && s->spin_addr == a) { s->st = T_RUN; G.nspin--; G.pct_recheck = true; }
         }
     }
 }
